@@ -64,6 +64,9 @@ class ExprMixin(object):
           st.assume(v.t != NONE)
         if fty.kind in ('list', 'vtuple'):
           st.assume(st.heap.len(v.t) >= 0)
+        if fty.kind == 'opt' or (fty.kind in ('list', 'vtuple') and fty.args
+                                 and fty.args[0].kind in ('obj', 'str', 'int')):
+          ops.assume_type(v, st)
         note_alloc(v, st)
       return v
     if isinstance(base, VTuple) and hasattr(base, 'fields') and attr in base.fields:
@@ -453,9 +456,29 @@ class ExprMixin(object):
       h = st.heap
       ety = src.ty.elem
 
-      def item(i):
-        c2 = self.bind_target(g.target, from_u(h.item(src.t, i), ety, cx), cx)
-        return to_u(self.sv(elt, c2), c2)
+      calls = {}
+
+      def item(i, side=None):
+        saved = getattr(self, 'comp_calls', None), getattr(self, 'comp_side', None)
+        self.comp_calls, self.comp_side = calls, side
+        try:
+          c2 = self.bind_target(g.target, from_u(h.item(src.t, i), ety, cx), cx)
+          return to_u(self.sv(elt, c2), c2)
+        finally:
+          self.comp_calls, self.comp_side = saved
+      # element expressions may call functions under total frame-free contracts: their ensures hold
+      # for every element (see SpecMixin.comp_contract_call)
+      side = []
+      i0 = z3.Const(fresh_name('ci'), I)
+      item(i0, side)
+      if side:
+        st.assume(ForAllT([i0], z3.Implies(z3.And(i0 >= 0, i0 < h.len(src.t)), z3.And(side))))
+        if not getattr(self, '_box_axioms', False) and hasattr(self, 'axioms'):
+          # boxing is injective (elsewhere stated per term; here the terms are under a quantifier)
+          self._box_axioms = True
+          sv_, iv_, bv_ = z3.Const('bx!s', S), z3.Const('bx!i', I), z3.Const('bx!b', B)
+          self.axioms.append(z3.ForAll([sv_], unbox_str(box_str(sv_)) == sv_, patterns=[box_str(sv_)]))
+          self.axioms.append(z3.ForAll([iv_], unbox_int(box_int(iv_)) == iv_, patterns=[box_int(iv_)]))
       return ops.new_list_sym(st, h.len(src.t), item, Ty('list' if kind == 'list' else 'vtuple', (ANY,)))
     # filtered or set-sourced: result is some sequence whose element set is the image (order unknown)
     srcp = as_setpred(src, st)
